@@ -408,6 +408,27 @@ fn unknown(ctx: &mut Ctx) {
     must_err!("util::compress_all", compress_all(Compression::Unknown, &[]).is_err());
     must_err!("util::decompress_all", decompress_all(Compression::Unknown, &x).is_err());
     must_err!("util::decompress_all", decompress_all(Compression::Unknown, &[]).is_err());
+    // 'unknown' stays an error whatever the payload looks like: real streams of every codec, bare magic numbers
+    let mut looks_compressed: Vec<Vec<u8>> = vec![vec![0x1f, 0x8b, 0x08], vec![0x28, 0xb5, 0x2f, 0xfd], vec![0x1f, 0x8b], b"{}".to_vec()];
+    for codec in [R::C_GZIP, R::C_BROTLI, R::C_ZSTD] {
+        if let Ok(z) = R::codec_compress(codec, b"payload payload payload payload", &CodecParams::plain()) {
+            looks_compressed.push(z);
+        }
+    }
+    for p in &looks_compressed {
+        must_err!("util::decompress_all", decompress_all(Compression::Unknown, p).is_err());
+        must_err!("util::compress_all", compress_all(Compression::Unknown, p).is_err());
+        must_err!("util::decompress", {
+            let mut c = std::io::Cursor::new(p.clone());
+            let r = decompress(Compression::Unknown, &mut c).is_err();
+            r
+        });
+        must_err!("util::decompress_async", {
+            let mut c = futures::io::Cursor::new(p.clone());
+            let r = decompress_async(Compression::Unknown, &mut c).is_err();
+            r
+        });
+    }
     must_err!("util::compress", {
         let mut o = Vec::new();
         let r = compress(Compression::Unknown, &mut o).is_err();
